@@ -660,6 +660,17 @@ func HostileDecode(cdc *codec.Codec, g *Gen, rep Reporter) []byte {
 	}
 	bz := HostileBytes(g.R, valid)
 	dec := authTypes.DefaultTxDecoder(cdc)
+	if len(valid) > 0 && g.R.Chance(10) {
+		// a complete, valid encoding followed by more bytes is not an encoding of a transaction
+		ext := append(append([]byte{}, valid...), g.R.Bytes(1+g.R.Intn(4))...)
+		var derr sdk.Error
+		if p := catch(func() { _, derr = dec(ext) }); p != nil {
+			rep.Violate("C20", "tx-decoder-panic", fmt.Sprintf("DefaultTxDecoder panicked on %x: %v", ext, p))
+		} else if derr == nil {
+			rep.Violate("C20", "tx-decoder-accepts-trailing-bytes", fmt.Sprintf("DefaultTxDecoder accepted a valid transaction encoding followed by %d more byte(s): two byte strings (two hashes) for one signed transaction", len(ext)-len(valid)))
+		}
+		rep.Count("c20.hostile.trailing_bytes", 1)
+	}
 	var out sdk.Tx
 	var derr sdk.Error
 	rep.Count("c20.hostile.decodes", 1)
@@ -811,6 +822,19 @@ func Keys(g *Gen, rep Reporter) {
 	}
 	// address keys
 	ad := sdk.Address(r.Bytes(24)[:20])
+	if r.Chance(25) {
+		ad = sdk.Address(r.Bytes(48)[:1+r.Intn(40)]) // the application accepts addresses of any length as recipients
+	}
+	if len(ad) != 20 {
+		// (signing-info and power-rank keys are only ever built for validator addresses, which are 20 bytes; their decoders
+		// refuse other lengths by design)
+		if !bytes.Equal(posTypes.AddressFromKey(posTypes.KeyForValByAllVals(ad)), ad) ||
+			!bytes.Equal(posTypes.AddressFromKey(posTypes.KeyForValidatorAward(ad)), ad) ||
+			!bytes.Equal(posTypes.AddressFromKey(posTypes.KeyForValidatorBurn(ad)), ad) {
+			rep.Violate("C20", "address-key-decode/length", fmt.Sprintf("an address key of the %d-byte address %x does not decode to the address", len(ad), ad))
+		}
+		return
+	}
 	if !bytes.Equal(posTypes.AddressFromKey(posTypes.KeyForValByAllVals(ad)), ad) ||
 		!bytes.Equal(posTypes.GetValidatorSigningInfoAddress(posTypes.GetValidatorSigningInfoKey(ad)), ad) ||
 		!bytes.Equal(posTypes.AddressFromKey(posTypes.KeyForValidatorAward(ad)), ad) ||
